@@ -140,6 +140,11 @@ type REvent struct {
 // Writer fault plan, keyed by writer call index.
 type WPlan struct {
 	Events []WEvent `json:"events,omitempty"`
+	// DeadFrom > 0: every writer call with index >= DeadFrom-1 that has no
+	// event of its own fails with (0, error DeadErr): the destination is
+	// gone for good (C06 only: a call must still return).
+	DeadFrom int    `json:"dead_from,omitempty"`
+	DeadErr  string `json:"dead_err,omitempty"`
 }
 
 type WEvent struct {
@@ -151,6 +156,10 @@ type WEvent struct {
 	// the io.Writer contract and is used by C06 only, whose premise is merely
 	// that the writer returns.
 	Nil bool `json:"nil,omitempty"`
+	// Err names a well-known error value the writer fails with instead of a
+	// SimErr: "full" (lz.ErrFullBuffer: the destination is itself a bounded
+	// buffer), "empty" (lz.ErrEmptyBuffer), "eof", "closed".
+	Err string `json:"err,omitempty"`
 }
 
 // Sched is the explicit schedule of a multi world run: task i runs until it
